@@ -4,6 +4,7 @@ package twin
 // with its own node-local configuration, and the set-up every replica receives identically between blocks.
 
 import (
+	"encoding/hex"
 	"fmt"
 	"math/big"
 	"os"
@@ -14,6 +15,7 @@ import (
 	"time"
 
 	sdkmath "cosmossdk.io/math"
+	storetypes "cosmossdk.io/store/types"
 	abci "github.com/cometbft/cometbft/abci/types"
 	"github.com/cosmos/cosmos-sdk/telemetry"
 	sdk "github.com/cosmos/cosmos-sdk/types"
@@ -73,6 +75,7 @@ type replica struct {
 	cfg         nodeCfg
 	firstHeight int64 // oldest height the traffic asks about (committed after the set-up)
 	restarts    int
+	restartedAt int64 // height of the first block the present instance executes (0: the instance the replica was created with)
 	node        *TwinNode // the parsed app.toml + flags the running instance was built from (nil: the suite's constructor)
 }
 
@@ -216,7 +219,7 @@ func newWorld(t *testing.T, k int, side *Sidecar, childCfg int) *world {
 		w.accrue(c)
 		w.accrue(c)
 	})
-	w.requireSameState("after set-up")
+	w.dropForkedAtSetup()
 	for _, rep := range w.reps {
 		rep.firstHeight = rep.c.Height - 1
 	}
@@ -292,12 +295,81 @@ func (w *world) setupReplica(c *Chain) {
 	c.RunBlockVoted(nil)
 }
 
-// requireSameState: a precondition of every comparison (same genesis, same set-up)
-func (w *world) requireSameState(when string) {
-	h0 := w.reps[0].c.AppHash()
-	for _, r := range w.reps[1:] {
-		require.Equalf(w.t, h0, r.c.AppHash(), "replica %d does not start from the same state %s", r.idx, when)
+// setupFork is the failing input of an app-hash divergence that is already there when the set-up is over: the set-up is
+// the same sequence of blocks and between-block writes on every replica, so the only thing that differs is the
+// replica's node-local side (configuration, and whether its application instance was re-created on its database).
+type setupFork struct {
+	Height           int64    `json:"height"` // first height whose committed app hash differs (0: unknown, somewhere up to height_after_set_up)
+	HeightAfterSetup int64    `json:"height_after_set_up"`
+	Replica          int      `json:"replica"`
+	Restarted        bool     `json:"replica_restarted_from_db"` // a new application instance was opened on the replica's database before the height
+	Restarts         int      `json:"restarts_during_history"`
+	AppHash0         string   `json:"app_hash_replica_0"`
+	AppHashReplica   string   `json:"app_hash_replica"`
+	Replicas         []string `json:"replicas"`
+}
+
+// commitHashAt: the app hash the replica committed at the height (from the commit info in its database), "" if not kept
+func commitHashAt(c *Chain, height int64) string {
+	cms, ok := c.App.CommitMultiStore().(interface {
+		GetCommitInfo(int64) (*storetypes.CommitInfo, error)
+	})
+	if !ok {
+		return ""
 	}
+	ci, err := cms.GetCommitInfo(height)
+	if err != nil || ci == nil {
+		return ""
+	}
+	return hex.EncodeToString(ci.Hash())
+}
+
+// firstForkHeight: the first height at which the two replicas committed different app hashes (0 if the commit infos are gone)
+func firstForkHeight(a, b *Chain, last int64) int64 {
+	for h := int64(1); h <= last; h++ {
+		ha, hb := commitHashAt(a, h), commitHashAt(b, h)
+		if ha == "" || hb == "" {
+			return 0
+		}
+		if ha != hb {
+			return h
+		}
+	}
+	return 0
+}
+
+// dropForkedAtSetup: every replica must come out of the set-up (same genesis, same blocks, same writes between blocks)
+// with replica 0's app hash.  One that does not has forked off already (oracle hit, with the height, the replica and
+// whether it is an instance re-created on its database as the failing input); it leaves the comparison and the history
+// goes on with the others.
+func (w *world) dropForkedAtSetup() {
+	r0 := w.reps[0]
+	h0 := r0.c.AppHash()
+	cfgs := w.describeCfgs()
+	kept := []*replica{r0}
+	for i, r := range w.reps[1:] {
+		hr := r.c.AppHash()
+		if hr == h0 {
+			kept = append(kept, r)
+			continue
+		}
+		last := r0.c.Height - 1
+		restarted := r.node != nil || r.restarts > 0
+		f := setupFork{Height: firstForkHeight(r0.c, r.c, last), HeightAfterSetup: last, Replica: r.idx, Restarted: restarted, Restarts: r.restarts,
+			AppHash0: h0, AppHashReplica: hr, Replicas: []string{cfgs[0], cfgs[i+1]}}
+		sig, how := "C01/twin/app_hash/set-up", "never restarted"
+		if restarted {
+			sig, how = "C01/twin/app_hash/after-restart", "an application instance re-created on its database before the set-up blocks"
+		}
+		at := fmt.Sprintf("first at height %d", f.Height)
+		if f.Height == 0 {
+			at = "first height unknown"
+		}
+		w.side.Hit(sig, fmt.Sprintf("after the set-up (heights 1..%d, identical blocks and writes on every replica) replica 0 and replica %d (%s; %s) have different app hashes, %s: %s vs %s",
+			last, r.idx, how, cfgs[i+1], at, h0, hr), f)
+		w.side.Count("forked_during_set_up")
+	}
+	w.reps = kept
 }
 
 func (w *world) fresh() common.Address {
@@ -402,6 +474,9 @@ func (w *world) describeCfgs() []string {
 			d += " | started from " + r.node.Summary
 		} else {
 			d += " | the integration suite's application (fixed app options, no-op logger)"
+		}
+		if r.restarts > 0 {
+			d += fmt.Sprintf(" | application instance re-created on its database %d times, last before height %d", r.restarts, r.restartedAt)
 		}
 		if w.processWide != "" {
 			d += " | process-wide: " + w.processWide
